@@ -604,6 +604,12 @@ def c10(tier):
     for fen in BIG:
         script += ["position fen " + fen, "go depth 2", "perft 2", "go depth 3 searchmoves"]
     sessions.append(("move_and_piece_list_capacity", script))
+    # 3b. many legal moves AND several iterations: everything indexed by the number of a move within its node (late-move tables)
+    many = [l.strip() for l in open(os.path.join(DATA, "roots_manymoves.fen")) if l.strip() and not l.startswith("#")]
+    script = ["ucinewgame"]
+    for fen in many:
+        script += ["position fen " + fen, "go depth %d" % (6 if full else 5)]
+    sessions.append(("many_moves_deeper", script))
     # 4. searchmoves with every legal move, repeated ucinewgame, ordinary play by the engine against itself
     pool = make_pool(ck, plain, 30, 60)
     script = []
@@ -670,6 +676,24 @@ def c10(tier):
                 ck.discrepancy({"kind": kind, "session": name},
                                dict(prop="C10", kind=kind, session=name, detail=dict(script=script, exit=res["exit"], report=res["report"], stderr_tail=res["stderr"][-1200:])))
     ck.cov["end_of_session_runs"] = end_results
+    # 7. indeterminate values: the engine's executable built with g++ -O0 + ASan + UBSan performs every load the source performs, so
+    #    a copy of a half-initialised object (bool / enum members never set) is reported as a load of an invalid value
+    gsan = build.gsan_engine()
+    usess = [("uci_handshake", ["uci", "@wait uciok", "isready", "@wait readyok", "ucinewgame", "quit"]),
+             ("options_and_search", ["setoption name Polyglot Sample value best", "position startpos moves e2e4 e7e5", "go depth 3", "@wait bestmove", "printboard", "quit"]),
+             ("newgame_and_clock", ["ucinewgame", "position startpos", "go wtime 200 btime 200", "@wait bestmove", "isready", "@wait readyok", "quit"])]
+    indet = []
+    for name, script in usess:
+        res = process_session(gsan, script, {"ASAN_OPTIONS": "detect_leaks=0", "UBSAN_OPTIONS": "print_stacktrace=0"}, limit_s=60)
+        rep = sorted(set(l.strip() for l in res["stderr"].splitlines() if "runtime error:" in l or "ERROR: AddressSanitizer" in l))
+        indet.append(dict(session=name, exit=res["exit"], reports=rep[:5]))
+        for line in rep:
+            where = line.split(" runtime error:")[0].split("/")[-1] if " runtime error:" in line else ""
+            kind = "indeterminate_value_loaded" if "not a valid value for type" in line else "sanitizer_report"
+            ck.discrepancy({"kind": kind, "where": where}, dict(prop="C10", kind=kind, session=name, detail=dict(report=line[:300], script=script)))
+        if res["exit"] != 0:
+            ck.discrepancy({"kind": "abnormal_exit", "session": name}, dict(prop="C10", kind="abnormal_exit", session=name, detail=dict(exit=res["exit"], stderr_tail=res["stderr"][-800:])))
+    ck.cov["indeterminate_value_sessions"] = indet
     # well-formedness of the generated long games, decided by the rules specification
     viols, cnt, st = core.validate_shards(wf_shards)
     ck.add_states(st["generated"], st["distinct"])
